@@ -482,6 +482,8 @@ def r04_3_moved_stay_wellformed(ctx: Ctx) -> None:
         for nm, access in pattern_captures(caps[0].node.pattern).items():  # type: ignore[union-attr]
             if access == ("tag",):
                 tagname = nm
+        if tagname is None and getattr(caps[0], "subject", None) is not None:
+            tagname = f"{src(caps[0].subject)}.tag"  # read as an attribute instead of captured by the pattern
         facts = path_facts(p)
         keeps_tag = tagname is not None and has_fact(facts, "IN", (tagname, "self.columns"), True)
         if not keeps_tag:
